@@ -12,7 +12,15 @@ def scenarios(seed, tier, failed):
         sc = charts.gen_scenario(rnd, n=rnd.randint(2, 7), nevents=rnd.randint(2, 6))
         n = len(sc['parent'])
         s = rnd.randrange(n)
-        kind = ['outside', 'self', 'none'][k % 3]
+        kind = ['outside', 'self', 'none', 'none-super'][k % 4]
+        if kind == 'none-super':
+            # a handler on the start path that answers the parent probe with None
+            sc['none_super'] = rnd.choice([x for x in charts.ancestors(sc['parent'], sc['start']) if x != -1])
+            sc['malformed'] = [kind, sc['none_super']]
+            sc['events'] = []
+            sc['timeout'] = 5
+            yield sc
+            continue
         if kind == 'outside':
             bad = [x for x in range(n) if x != s and s not in charts.ancestors(sc['parent'], x)]
             if not bad:
@@ -53,6 +61,10 @@ def run(sc):
 
     r = step(lambda: chart.start_at(handlers[sc['start']]))
     key = 'start_at'
+    if kind == 'none-super':
+        if r != 'topology':
+            return False, 'start_at through st%d, which answers the parent probe with None, ended with %r' % (s, r), key
+        return True, ''
     if kind in ('outside', 'self') and entered_bad_state():
         if r != 'topology':
             return False, 'start_at took the malformed initial transition of st%d (%s) and ended with %r' % (s, kind, r), key
